@@ -5,10 +5,17 @@ Each controlled thread runs one callable. A schedule is a list of (thread index,
 events to run) segments; the last segment of each thread lets it run to completion. Only one thread
 runs at a time (a baton is passed at line events of the traced source files), so an execution is
 reproduced exactly by its schedule.
+
+A thread that holds the baton and stops producing line events (it waits for a lock that a suspended thread holds) is
+taken to be blocked after STALL seconds: the baton goes on to the next segment of the schedule, and the blocked thread
+queues for the baton again at its next line event. Code without blocking primitives never meets this.
 """
 import os
 import sys
 import threading
+import time
+
+STALL = 0.2
 
 TRACED = ('license_expression' + os.sep + '__init__.py', 'license_expression' + os.sep + '_pyahocorasick.py')
 
@@ -27,18 +34,35 @@ class Run(object):
         self.errors = [None] * len(fns)
         self.lines = [0] * len(fns)
         self.deadlock = False
+        self.progress = time.monotonic()
+        self.blocked = set()
+        self.awaited = None
+        self.stalls = 0
 
     def _next_segment(self):
         """Called with the lock held: choose who runs next."""
+        self.progress = time.monotonic()
         while self.schedule:
             tid, n = self.schedule.pop(0)
-            if not self.done[tid]:
-                self.turn, self.budget = tid, n
+            if self.done[tid]:
+                continue
+            if tid in self.blocked:
+                # it may just have been released: wait a moment for its next line event before passing it over
+                self.turn, self.budget, self.awaited = None, None, (tid, n)
                 self.cv.notify_all()
                 return
-        # schedule exhausted: let the remaining threads finish in index order
+            self.turn, self.budget = tid, n
+            self.cv.notify_all()
+            return
+        # schedule exhausted: let the remaining threads finish in index order, those not known to be blocked first
+        for tid, d in enumerate(self.done):
+            if not d and tid not in self.blocked:
+                self.turn, self.budget = tid, None
+                self.cv.notify_all()
+                return
         for tid, d in enumerate(self.done):
             if not d:
+                self.blocked.discard(tid)
                 self.turn, self.budget = tid, None
                 self.cv.notify_all()
                 return
@@ -55,14 +79,26 @@ class Run(object):
     def _tracer(self, tid):
         def local(frame, event, arg):
             if event == 'line':
-                self.lines[tid] += 1
+                if self.turn != tid:
+                    # a thread that was taken to be blocked runs again: it queues for the baton (and takes it when the
+                    # schedule was waiting for it)
+                    with self.cv:
+                        if self.turn != tid:
+                            self.blocked.discard(tid)
+                            if self.turn is None and self.awaited is not None and self.awaited[0] == tid:
+                                self.turn, self.budget, self.awaited = tid, self.awaited[1], None
+                                self.progress = time.monotonic()
+                                self.cv.notify_all()
+                    self._wait_turn(tid)
+                self.lines[tid] += 1       # the monitor reads the sum of these counters as progress
                 if self.on_line:
                     self.on_line(tid, frame, 'line')
                 if self.budget is not None:
                     with self.cv:
-                        self.budget -= 1
-                        if self.budget <= 0:
-                            self._next_segment()
+                        if self.turn == tid and self.budget is not None:
+                            self.budget -= 1
+                            if self.budget <= 0:
+                                self._next_segment()
                     self._wait_turn(tid)
             elif event == 'return' and self.on_line:
                 self.on_line(tid, frame, 'return')
@@ -95,6 +131,32 @@ class Run(object):
             t.start()
         with self.cv:
             self._next_segment()
+        deadline = time.monotonic() + self.timeout * 2
+        seen = -1
+        while time.monotonic() < deadline and not self.deadlock:
+            alive = [t for t in ths if t.is_alive()]
+            if not alive:
+                break
+            alive[0].join(0.01)        # returns at once when that thread ends
+            now_lines = sum(self.lines)
+            if now_lines != seen:
+                seen = now_lines
+                self.progress = time.monotonic()
+                continue
+            with self.cv:
+                t = self.turn
+                if t is None and self.awaited is not None and time.monotonic() - self.progress > STALL:
+                    # the awaited thread is still blocked: its segment is passed over
+                    self.awaited = None
+                    self._next_segment()
+                    continue
+                if t is not None and not self.done[t] and time.monotonic() - self.progress > STALL:
+                    others = [i for i, d in enumerate(self.done) if not d and i != t and i not in self.blocked]
+                    if others:
+                        # the baton holder makes no progress while somebody else could: it waits for something they hold
+                        self.blocked.add(t)
+                        self.stalls += 1
+                        self._next_segment()
         for t in ths:
-            t.join(self.timeout * 2)
+            t.join(0.05)
         return self
